@@ -153,7 +153,7 @@ def generate(ctx):
             yield 'dlon', dict(mesh=[z, x, y], Z=Z, M=2 * q * x, L=y * int(rng.integers(1, 3)), seed=int(rng.integers(0, 2 ** 31)))
     # padded shapes for every base multiple / mesh
     for _ in range(30 if quick else 300):
-        x, y = [int(v) for v in rng.choice([1, 2, 4, 8], size=2)]
+        x, y = [(1, 1), (1, 2), (2, 1), (2, 2), (4, 1), (1, 4), (4, 2), (2, 4), (8, 1), (1, 8)][int(rng.integers(0, 10))]
         yield 'shapes', dict(lw=int(rng.integers(1, 40)), tw=int(rng.integers(1, 40)), lon=int(rng.integers(1, 80)),
                              lat=int(rng.integers(1, 40)), base=int(rng.choice([1, 2, 3, 4, 5, 8, 16])), x=x, y=y)
     # vertical pad / crop
